@@ -659,3 +659,64 @@ Definition canonical_b (raw : str) : bool :=
   let k := root_len raw in
   let r := rev raw in
   (negb (gt_root k r) || comp_ok r) && all_ok k r.
+
+(* ------------------------------------------------------------------ *)
+(* Syntax::windows (as compiled on a non-Windows build: Path::isAbsolute is the
+   unix one).  current() maps '\\' to '/' and folds case; the root component
+   may be "/", "//", "//?" "//./" or a drive "c:" / "c:/"; otherwise the
+   iterator and the matcher are the same code. *)
+Definition wmap (c : N) : N := if c =? BSL then SL else to_lower c.
+Definition issep_w (c : N) : bool := (c =? SL) || (c =? BSL).
+
+(* root length of the first non-empty string p: p[i] past the end reads '\0' *)
+Definition root_len_w (p : str) : nat :=
+  let at_ i := nth i p 0 in
+  if issep_w (at_ 0%nat) then
+    if issep_w (at_ 1%nat) then
+      if (at_ 2%nat =? DOT) || (at_ 2%nat =? QM) then
+        if issep_w (at_ 3%nat) then 4%nat else 3%nat
+      else 2%nat
+    else 1%nat
+  else if is_alpha (at_ 0%nat) && (at_ 1%nat =? 58) then
+    if issep_w (at_ 2%nat) then 3%nat else 2%nat
+  else 0%nat.
+
+Definition iter_all_w (a b : str) : str :=
+  let raw := join_raw a b in
+  let first := match cstr a with [] => cstr b | _ => cstr a end in
+  let k := root_len_w first in
+  let r := skips (S (length raw)) k false (rev (map wmap raw)) in
+  iter_seq (length r) k r.
+
+Definition iter_read_w (a b : str) : str := rev (iter_all_w a b).
+
+Definition iter_pattern_w (pattern base : str) : str :=
+  if is_rel_pattern pattern then iter_all_w base pattern else iter_all_w pattern [].
+Definition iter_path_w (path base : str) : str :=
+  if is_abs path then iter_all_w path [] else iter_all_w base path.
+
+Definition dir_mismatch_w (pattern : str) (isdir : bool) : bool :=
+  issep_w (last pattern 0) && negb isdir.
+
+Definition path_seen_w (pattern path base : str) (isdir : bool) : str :=
+  let t0 := iter_path_w path base in
+  if dir_mismatch_w pattern isdir then drop_nonsep t0 else t0.
+
+Definition pathmatch_w_fuel (fuel : positive) (pattern path base : str) (isdir : bool) : option bool :=
+  if is_nil pattern then Some false
+  else if str_eqb pattern [STAR] || str_eqb pattern [STAR; STAR] then Some true
+  else if negb (dir_mismatch_w pattern isdir) && str_eqb pattern path then Some true
+  else match_loop fuel (is_real pattern) (iter_pattern_w pattern base) (path_seen_w pattern path base isdir).
+
+Definition pathmatch_w (pattern path base : str) (isdir : bool) : option bool :=
+  pathmatch_w_fuel (loop_fuel (iter_pattern_w pattern base) (path_seen_w pattern path base isdir))
+                   pattern path base isdir.
+
+(* the documented rules on what the windows iterators read (separators unified, case folded) *)
+Definition pathmatch_w_spec (pattern path base : str) (isdir : bool) : Prop :=
+  pattern <> [] /\
+  match_spec (is_real pattern) (rev (iter_pattern_w pattern base)) (rev (path_seen_w pattern path base isdir)).
+
+Definition pathmatch_w_spec_b (pattern path base : str) (isdir : bool) : bool :=
+  negb (is_nil pattern) &&
+  rsearch (is_real pattern) (iter_pattern_w pattern base) (path_seen_w pattern path base isdir).
